@@ -127,6 +127,7 @@ let () =
            | Cas.TStart, Cas.TDone _ -> add i "hit"
            | Cas.TStart, Cas.TAlloc _ -> add i "miss"
            | Cas.TAlloc own, Cas.TDone r -> if cell_before = None && r = own then add i "win" else add i "lose"
+           | Cas.TDone _, Cas.TDone _ -> add i "hit"      (* a later load of a finished reader sees the published value *)
            | _, Cas.TCrash -> add i "CRASH"
            | _, _ -> add i "?")) grants;
       let crash = Stdlib.List.exists (fun t -> t = Cas.TCrash) (!st).Cas.thr in
